@@ -289,9 +289,9 @@ def main(mod, tier, seed, replay=None):
     failed = [r for r in results if r["verdict"] != "proved"]
     grounded = {}
     if failed:
-        # with a native failing input already in hand only the smallest scope is searched (names the broken obligation)
+        # (also when a native failing input is in hand: the refutation names the broken obligation next to the input)
         refute_grounded.only_fns = sorted({r["fn"] for r in failed if r["verdict"] == "unknown" and r.get("fn")}) or None
-        grounded = refute_grounded(mod, [r["id"] for r in failed if r["verdict"] == "unknown"], seed, scopes=(2,) if (battery and battery.get("failures")) else (2, 3))
+        grounded = refute_grounded(mod, [r["id"] for r in failed if r["verdict"] == "unknown"], seed, scopes=(2, 3))
         for r in failed:
             if r["id"] in grounded:
                 r["verdict"] = "refuted"
